@@ -13,7 +13,8 @@ RULE = ("a virtual signal (the handler is called synchronously on the interrupte
         "the preemption / store-delay budget; the handler runs rcu_read_lock; load x; load y; rcu_read_unlock; oracles: "
         "rcu_read_ongoing() identical before and after each handler and correct inside/outside sections, C01 litmus and interval "
         "oracles for the handler's section and for the interrupted section, termination (self-deadlock on a library mutex), "
-        "callback of an interrupted call_rcu runs exactly once")
+        "callback of an interrupted call_rcu runs exactly once; FUTEX_WAIT interrupted by the signal (EINTR) in the grace-period leader and in "
+        "batched synchronize_rcu waiters must not lose the wake-up")
 ASSUMPTIONS = ["x86-TSO", "signals are delivered only between instrumented accesses (every library load/store is announced)",
                "memb/mb: the signal is blocked by the application while the thread is not registered (documented contract)"]
 DEADLINE = {"quick": 170, "thorough": 1700}
@@ -33,6 +34,11 @@ def jobs(tier):
         J.append(Job(b, "sig", "1,0,0,1", dict(p1, target=2, callrcu=1), env, workers=8))
         J.append(Job(b, "sig", "1,0,0,1", dict(p1, target=1, yield_in_section=1), env, workers=8))
         J.append(Job(b, "sig", "1,0,0,1", {"qs_attempts": 2, "wait_attempts": 2, "target": 3}, env, workers=8))
+        # a signal that lands while the thread sleeps in FUTEX_WAIT makes the system call return EINTR (fault budget 1):
+        # interrupted leader (sig) and interrupted batched waiters (merged, three_callers)
+        J.append(Job(b, "sig", "1,0,1,1", dict(p1, target=2), env, workers=8))
+        J.append(Job(b, "merged", "1,0,1,0", p1, env, workers=8))
+        J.append(Job(b, "three_callers", "1,0,1,0", p1, env, workers=8))
         if bp:
             for tgt in (1, 2, 3):
                 J.append(Job(b, "sig", "1,0,0,1", dict(p1, target=tgt, main_registered=0, init_reader_count=2), env, workers=8))
